@@ -18,6 +18,18 @@ package abft
 //@ ghost gSetFrameN int
 //@ ghost gSetFrameEv int
 //@ ghost gSetFrameV int
+//@ // stLDF: last decided frame of the store; nApply: number of ApplyAtropos calls (blocks emitted so far);
+//@ // gSealN: value of nApply right after the most recent call that returned a new validator set (sealed the epoch);
+//@ // gApplyFrame/gApplyEpoch/gApplyRes: frame argument, store epoch and result of the most recent ApplyAtropos call;
+//@ // nLoaded/gLoadedEpoch: record of EpochDBLoaded calls
+//@ ghost stLDF int
+//@ ghost nApply int
+//@ ghost gSealN int
+//@ ghost gApplyFrame int
+//@ ghost gApplyEpoch int
+//@ ghost gApplyRes *pos.Validators
+//@ ghost nLoaded int
+//@ ghost gLoadedEpoch int
 //@
 //@ iface EventSource.GetEvent
 //@   pure
@@ -29,13 +41,42 @@ package abft
 //@ funcfield Store.crit
 //@   ensures true
 //@
-//@ // assumed of the store (to be discharged for GetFrameRoots/AddRoot by C33)
-//@ trusted func (*Store).GetEpoch
+//@ // assumed of the store (to be discharged for GetFrameRoots/AddRoot by C33): the ghost model is what the
+//@ // RLP-encoded, cached records hold
+//@ trusted func (*Store).GetEpochState
+//@   requires s != nil
+//@   ensures  result != nil && result.Epoch == stEpoch && result.Validators == stValidators && valid(stValidators) && len(stValidators.values) >= 1
+//@ trusted func (*Store).SetEpochState
+//@   requires s != nil && e != nil && valid(e.Validators) && len(e.Validators.values) >= 1
+//@   modifies stEpoch, stValidators
+//@   ghost stEpoch = e.Epoch
+//@   ghost stValidators = e.Validators
+//@ trusted func (*Store).GetLastDecidedState
+//@   requires s != nil
+//@   ensures  result != nil && result.LastDecidedFrame == stLDF
+//@ trusted func (*Store).SetLastDecidedState
+//@   requires s != nil && v != nil
+//@   modifies stLDF
+//@   ghost stLDF = v.LastDecidedFrame
+//@ trusted func (*Store).openEpochDB
+//@   requires s != nil
+//@   modifies groots[*]
+//@   ensures  result == nil && forall(f int, len(groots[f]) == 0)
+//@ trusted func (*Store).dropEpochDB
+//@   requires s != nil
+//@ func (*Store).GetEpoch
 //@   requires s != nil
 //@   ensures  result == stEpoch
-//@ trusted func (*Store).GetValidators
+//@ func (*Store).GetValidators
 //@   requires s != nil
 //@   ensures  result == stValidators && valid(result) && len(result.values) >= 1
+//@ func (*Store).GetLastDecidedFrame
+//@   requires s != nil
+//@   ensures  result == stLDF
+//@ func (*Store).applyGenesis
+//@   requires s != nil && valid(validators) && len(validators.values) >= 1
+//@   modifies stEpoch, stValidators, stLDF
+//@   ensures  stEpoch == epoch && stValidators == validators && stLDF == 0
 //@ trusted func (*Store).GetFrameRoots
 //@   requires s != nil
 //@   ensures  result == groots[f] && forall(j, 0, len(result), result[j].Slot.Frame == f)
@@ -139,3 +180,91 @@ package abft
 //@   ensures  [next] bigv[u.counter] == old(bigv[u.counter]) + 1 && u.counter == old(u.counter)
 //@   ensures  [injective] be24(result, 24) == bigv[u.counter]
 //@   hint use be24_copy(result, b, 24 - len(b), len(b))
+//@
+//@ // ---- epochs and frame numbering (C09, C02) ----
+//@ // the application callback: may return a new validator set (sealing the epoch); called only for the frame that
+//@ // follows the last decided one
+//@ funcfield OrdererCallbacks.ApplyAtropos
+//@   params decidedFrame, atropos
+//@   requires decidedFrame == (stLDF + 1) % 4294967296
+//@   modifies nApply, gSealN, gApplyFrame, gApplyEpoch, gApplyRes
+//@   ghost nApply = old(nApply) + 1
+//@   ghost gApplyFrame = decidedFrame
+//@   ghost gApplyEpoch = stEpoch
+//@   ghost gApplyRes = result
+//@   ghost gSealN = ite(result != nil, old(nApply) + 1, old(gSealN))
+//@   ensures result != nil ==> valid(result) && len(result.values) >= 1
+//@ funcfield OrdererCallbacks.EpochDBLoaded
+//@   params epoch
+//@   modifies nLoaded, gLoadedEpoch
+//@   ghost nLoaded = old(nLoaded) + 1
+//@   ghost gLoadedEpoch = epoch
+//@
+//@ inv Orderer oinv(p): p != nil && p.store != nil && p.election != nil && elinv(p.election) && p.election.validators == stValidators && len(stValidators.values) >= 1 && p.election.frameToDecide == (stLDF + 1) % 4294967296 && gSealN <= nApply
+//@ // epochStart(p, E, V): the state in which an epoch begins: epoch E, validator set V, no decided frame, no roots, empty election for frame 1
+//@ spec epochStart(p *Orderer, E int, V *pos.Validators) bool = stEpoch == E && stValidators == V && stLDF == 0 && p.election.validators == V && p.election.frameToDecide == 1 && len(p.election.votes) == 0 && len(p.election.decidedRoots) == 0 && forall(f int, len(groots[f]) == 0)
+//@
+//@ func (*Orderer).resetEpochStore
+//@   requires p != nil && p.store != nil
+//@   modifies groots[*], nLoaded, gLoadedEpoch
+//@   ensures  result == nil ==> forall(f int, len(groots[f]) == 0)
+//@   ensures  [loaded] result == nil && p.callback.EpochDBLoaded != nil ==> nLoaded == old(nLoaded) + 1 && gLoadedEpoch == newEpoch
+//@ func (*Orderer).sealEpoch
+//@   requires p != nil && p.store != nil && valid(newValidators) && len(newValidators.values) >= 1 && stEpoch < 4294967295
+//@   modifies stEpoch, stValidators, groots[*], nLoaded, gLoadedEpoch
+//@   ensures  stEpoch == old(stEpoch) + 1 && stValidators == newValidators
+//@   ensures  result == nil ==> forall(f int, len(groots[f]) == 0)
+//@ func (*Orderer).onFrameDecided
+//@   requires oinv(p) && frame == (stLDF + 1) % 4294967296 && stEpoch < 4294967295
+//@   modifies nApply, gSealN, gApplyFrame, gApplyEpoch, gApplyRes, nLoaded, gLoadedEpoch, stLDF, stEpoch, stValidators, groots[*], p.election.validators, p.election.frameToDecide, p.election.votes, p.election.decidedRoots
+//@   ensures  [emit] old(p.callback.ApplyAtropos != nil) ==> nApply == old(nApply) + 1 && gApplyFrame == frame && gApplyEpoch == old(stEpoch) && result0 == (gApplyRes != nil)
+//@   ensures  [noemit] old(p.callback.ApplyAtropos == nil) ==> nApply == old(nApply) && !result0
+//@   ensures  [next] !result0 ==> result1 == nil && stLDF == frame && stEpoch == old(stEpoch) && stValidators == old(stValidators) && gSealN == old(gSealN) && oinv(p)
+//@   ensures  [sealed] result0 ==> gSealN == nApply && gSealN != old(gSealN) && gApplyRes != nil
+//@   ensures  [maps] result1 == nil ==> fresh(p.election.votes) && fresh(p.election.decidedRoots)
+//@   ensures  [newepoch] result0 && result1 == nil ==> epochStart(p, old(stEpoch) + 1, gApplyRes) && oinv(p)
+//@
+//@ func (*Orderer).processKnownRoots
+//@   requires oinv(p)
+//@   modifies p.election.votes[*], p.election.decidedRoots[*], gObs
+//@   ensures  result0 != nil ==> result1 == nil && result0.Frame == p.election.frameToDecide
+//@   loop 1 modifies p.election.votes[*], p.election.decidedRoots[*], gObs
+//@   loop 1 invariant oinv(p)
+//@   loop 2 modifies p.election.votes[*], p.election.decidedRoots[*], gObs
+//@   loop 2 invariant oinv(p) && 0 <= _k && _k <= len(_range)
+//@
+//@ func (*Orderer).bootstrapElection
+//@   requires oinv(p) && stEpoch < 4294967295
+//@   modifies nApply, gSealN, gApplyFrame, gApplyEpoch, gApplyRes, nLoaded, gLoadedEpoch, stLDF, stEpoch, stValidators, groots[*], p.election.validators, p.election.frameToDecide, p.election.votes, p.election.decidedRoots, p.election.votes[*], p.election.decidedRoots[*], gObs
+//@   ensures  [stop] gSealN == old(gSealN) || gSealN == nApply
+//@   ensures  [sealed] result0 ==> result1 == nil && gSealN == nApply && gSealN != old(gSealN) && epochStart(p, old(stEpoch) + 1, gApplyRes) && oinv(p)
+//@   ensures  [open] !result0 && result1 == nil ==> gSealN == old(gSealN) && stEpoch == old(stEpoch) && stValidators == old(stValidators) && oinv(p)
+//@   ensures  [maps] result1 == nil ==> (p.election.votes == old(p.election.votes) || fresh(p.election.votes)) && (p.election.decidedRoots == old(p.election.decidedRoots) || fresh(p.election.decidedRoots))
+//@   loop 1 modifies nApply, gSealN, gApplyFrame, gApplyEpoch, gApplyRes, nLoaded, gLoadedEpoch, stLDF, stEpoch, stValidators, groots[*], p.election.validators, p.election.frameToDecide, p.election.votes, p.election.decidedRoots, p.election.votes[*], p.election.decidedRoots[*], gObs
+//@   loop 1 invariant oinv(p) && gSealN == old(gSealN) && stEpoch == old(stEpoch) && stValidators == old(stValidators)
+//@   loop 1 invariant (p.election.votes == old(p.election.votes) || freshsince(p.election.votes, _loopalloc)) && (p.election.decidedRoots == old(p.election.decidedRoots) || freshsince(p.election.decidedRoots, _loopalloc))
+//@
+//@ func (*Orderer).handleElection
+//@   requires oinv(p) && root != nil && stEpoch < 4294967295
+//@   modifies nApply, gSealN, gApplyFrame, gApplyEpoch, gApplyRes, nLoaded, gLoadedEpoch, stLDF, stEpoch, stValidators, groots[*], p.election.validators, p.election.frameToDecide, p.election.votes, p.election.decidedRoots, p.election.votes[*], p.election.decidedRoots[*], gObs
+//@   ensures  [stop] gSealN == old(gSealN) || gSealN == nApply
+//@   ensures  [sealed] result == nil && gSealN != old(gSealN) ==> epochStart(p, old(stEpoch) + 1, gApplyRes) && oinv(p)
+//@   ensures  [open] result == nil && gSealN == old(gSealN) ==> stEpoch == old(stEpoch) && stValidators == old(stValidators) && oinv(p)
+//@   loop 1 modifies nApply, gSealN, gApplyFrame, gApplyEpoch, gApplyRes, nLoaded, gLoadedEpoch, stLDF, stEpoch, stValidators, groots[*], p.election.validators, p.election.frameToDecide, p.election.votes, p.election.decidedRoots, p.election.votes[*], p.election.decidedRoots[*], gObs
+//@   loop 1 invariant oinv(p) && gSealN == old(gSealN) && stEpoch == old(stEpoch) && stValidators == old(stValidators)
+//@   loop 1 invariant (p.election.votes == old(p.election.votes) || freshsince(p.election.votes, _loopalloc)) && (p.election.decidedRoots == old(p.election.decidedRoots) || freshsince(p.election.decidedRoots, _loopalloc))
+//@
+//@ func (*Orderer).Reset
+//@   requires p != nil && p.store != nil && p.election != nil && elinv(p.election) && valid(validators) && len(validators.values) >= 1
+//@   modifies stEpoch, stValidators, stLDF, groots[*], nLoaded, gLoadedEpoch, p.election.validators, p.election.frameToDecide, p.election.votes, p.election.decidedRoots
+//@   ensures  result == nil ==> epochStart(p, epoch, validators)
+//@
+//@ // Process: a rejected event emits no block and changes neither epoch nor decided frame; a sealing block is the last block of the call
+//@ func (*Orderer).Process
+//@   requires oinv(p) && p.input != nil && p.dagIndex != nil && e != nil && p.crit != nil && stEpoch < 4294967295
+//@   requires spframe(p, e) <= 2147483646 && e.Frame() <= 2147483646
+//@   modifies groots[*], nAddRoot, gAddRootSpf, gAddRootEv, nApply, gSealN, gApplyFrame, gApplyEpoch, gApplyRes, nLoaded, gLoadedEpoch, stLDF, stEpoch, stValidators, p.election.validators, p.election.frameToDecide, p.election.votes, p.election.decidedRoots, p.election.votes[*], p.election.decidedRoots[*], gObs
+//@   ensures  [reject] !old(accept(p, e)) ==> result == ErrWrongFrame && nApply == old(nApply) && nAddRoot == old(nAddRoot) && stEpoch == old(stEpoch) && stLDF == old(stLDF) && stValidators == old(stValidators)
+//@   ensures  [accept] old(accept(p, e)) ==> (gSealN == old(gSealN) || gSealN == nApply)
+//@   ensures  [sealed] result == nil && gSealN != old(gSealN) ==> epochStart(p, old(stEpoch) + 1, gApplyRes) && oinv(p)
+//@   ensures  [open] result == nil && gSealN == old(gSealN) ==> stEpoch == old(stEpoch) && stValidators == old(stValidators) && oinv(p)
